@@ -213,6 +213,11 @@ static long run_ops(int k){
         yield_(k, myth_yield_option_local_first); }
       break;
     case OP_SLEEP: { struct timespec rq; int rc; rq.tv_sec = o->a; rq.tv_nsec = o->b;   /* a = sec, b = nsec (possibly malformed) */
+        if (o->c == 1){        /* usleep(b microseconds): the request as the caller means it */
+          unsigned int us = (unsigned int)o->b;
+          U("U_NanosleepCall", 3, (long)k, (long)(us / 1000000u), (long)(us % 1000000u) * 1000L); rc = myth_usleep(us); U("U_NanosleepRet", 2, (long)k, (long)rc); break; }
+        if (o->c == 2){        /* sleep(a seconds) */
+          U("U_NanosleepCall", 3, (long)k, (long)o->a, 0L); rc = (int)myth_sleep((unsigned int)o->a); U("U_NanosleepRet", 2, (long)k, (long)rc); break; }
         U("U_NanosleepCall", 3, (long)k, (long)o->a, (long)o->b); rc = myth_nanosleep(&rq, 0); U("U_NanosleepRet", 2, (long)k, (long)rc); break; }
     case OP_TLK: { struct timespec now, dl; int rc; long ns;   /* a = mutex, b = relative timeout in us (may be negative: already past) */
         myth_verif_clock(&now); ns = now.tv_nsec + (long)o->b * 1000; dl.tv_sec = now.tv_sec; 
@@ -256,6 +261,7 @@ static long run_ops(int k){
 /* custom steal function installed through the work-stealing API: picks a random victim and takes its
    oldest thread unless the decision callback declines it (mode 1: every second candidate, mode 2: always
    the first time a candidate is seen) */
+static int vstep_ms = 0;   /* prologue kind 5: step bound of the virtual clock in ms (long sleeps) */
 static int ws_mode = 0; static long ws_calls = 0; static myth_thread_t ws_last = 0;
 static int ws_decide(myth_thread_t th, void *ud){ (void)ud; ws_calls++;
   if (ws_mode == 1) return (ws_calls % 2) == 0;
@@ -287,7 +293,7 @@ int main(int argc, char **argv){
   for (i = 0; i < MAXO; i++){ bar_n[i] = 2; jc_n[i] = 1; bufcap[i] = 1; }
   if (fscanf(fp, "%d", &nini) != 1) return 2;
   for (i = 0; i < nini; i++){ int kind, idx, n; if (fscanf(fp, "%d %d %d", &kind, &idx, &n) != 3) return 2;
-    if (kind == 1) bar_n[idx] = n; else if (kind == 2) jc_n[idx] = n; else if (kind == 3) bufcap[idx] = n; else if (kind == 4) ws_mode = n; }
+    if (kind == 1) bar_n[idx] = n; else if (kind == 2) jc_n[idx] = n; else if (kind == 3) bufcap[idx] = n; else if (kind == 4) ws_mode = n; else if (kind == 5) vstep_ms = n; }
   for (i = 0; i < nbodies; i++){
     if (fscanf(fp, "%d", &bodies[i].n) != 1) return 2;
     bodies[i].ops = calloc(bodies[i].n + 1, sizeof(op_t));
@@ -295,6 +301,7 @@ int main(int argc, char **argv){
   }
   fclose(fp);
   vrt_opts_from_env(&vo);
+  if (vstep_ms > 0) vo.vclock_step_ns = (long)vstep_ms * 1000000L;
   vrt_install_crash_handlers();
   myth_globalattr_init(&ga);
   myth_globalattr_set_n_workers(&ga, vo.nworkers);
